@@ -141,6 +141,11 @@ STATS = {"eof_line_alias": 0}
 ASTRAL = ["\U0001F600", "\U00010000", "\U0010FFFF", "\U0001D4B3"]
 BMP = ["\u00e9", "\u4e16", "\ufffd", "\uffff", "\ud7ff", "\ue000", "\u0080", "\u07ff", "\u0800", "\u007f"]
 ASCII = list("abcxyz ;{}()=\t")
+# "invisible" / special code points a text pipeline is tempted to normalise: BOM / ZWNBSP, zero-width space and joiner,
+# soft hyphen, Unicode line and paragraph separators, NEL, NUL, the replacement character, a noncharacter,
+# astral characters (surrogate pairs on the wire). None of them is a line terminator for LSP.
+SPECIAL = ["\ufeff", "\u200b", "\u200d", "\u00ad", "\u2028", "\u2029", "\u0085", "\x00", "\ufffd", "\ufffe",
+           "\U0001F600", "\U0010FFFF"]
 
 
 def gen_text(rng, maxtok, eol=None, allow_lone_cr=False):
@@ -156,10 +161,12 @@ def gen_text(rng, maxtok, eol=None, allow_lone_cr=False):
             out.append(rng.choice(BMP))
         elif r < 0.54 and allow_lone_cr:
             out.append("\r")
-        elif r < 0.55:
-            out.append("\x00")
+        elif r < 0.60:
+            out.append(rng.choice(SPECIAL))
         else:
             out.append(rng.choice(ASCII))
+    if out and rng.random() < 0.12:                         # special code point at the very start / very end
+        out[0 if rng.random() < 0.6 else -1] = rng.choice(SPECIAL)
     s = "".join(out)
     if not allow_lone_cr:
         # texts are inserted at arbitrary places; keep "\r" only as part of "\r\n" and never start
@@ -346,28 +353,80 @@ def gen_notif(rng, H, uri, doc, start, lone_cr):
     return doc
 
 
+def add_scripted(H, uri, doc, notifs):
+    """one scripted history: didOpen `doc`, then each element of `notifs` = one notification: a list of changes
+    ("F", text) | ("R", sl, sc, el, ec, text), or [("O", text)] = a new didOpen. The python client supplies what the
+    property requires after EVERY step (the didOpen itself included)."""
+    start = len(H.ops)
+    H.add("reset", {"kind": "none"}, start)
+    H.add("open %s %s" % (uri, hx(doc)), {"kind": "sync", "text": doc, "lone_cr": has_lone_cr(doc)}, start)
+    for cs in notifs:
+        cs = [tuple(c) for c in cs]
+        if len(cs) == 1 and cs[0][0] == "O":
+            doc = cs[0][1]
+            H.add("open %s %s" % (uri, hx(doc)), {"kind": "sync", "text": doc, "lone_cr": has_lone_cr(doc)}, start)
+            continue
+        nd, why = client_apply(doc, cs) if cs else (doc, None)
+        mixed = len(cs) > 1 and any(c[0] == "F" for c in cs)
+        if not cs:
+            H.add("change %s -" % uri, {"kind": "unchanged", "text": doc, "why": "empty-list"}, start)
+        elif mixed:
+            H.add("change %s %s" % (uri, enc_changes(cs)), {"kind": "shape", "text": doc, "client_text": nd, "why": "mixed-list"}, start)
+        elif nd is None:
+            H.add("change %s %s" % (uri, enc_changes(cs)), {"kind": "reject", "text": doc, "why": why, "changes": cs, "lone_cr": has_lone_cr(doc)}, start)
+        else:
+            doc = nd
+            H.add("change %s %s" % (uri, enc_changes(cs)), {"kind": "sync", "text": doc, "changes": cs, "lone_cr": has_lone_cr(doc)}, start)
+        if mixed or nd is None:
+            H.add("open %s %s" % (uri, hx(doc)), {"kind": "sync", "text": doc, "lone_cr": has_lone_cr(doc)}, start)
+
+
 def corpus_histories(H):
     for fn in sorted(glob.glob(os.path.join(os.path.dirname(os.path.dirname(os.path.abspath(__file__))), "corpus", "C21", "*.json"))):
         for h in json.load(open(fn)):
-            start = len(H.ops)
-            uri, doc = h.get("uri", WA), h["doc"]
-            H.add("reset", {"kind": "none"}, start)
-            H.add("open %s %s" % (uri, hx(doc)), {"kind": "sync", "text": doc, "lone_cr": has_lone_cr(doc)}, start)
-            for cs in h["notifs"]:
-                cs = [tuple(c) for c in cs]
-                nd, why = client_apply(doc, cs) if cs else (doc, None)
-                mixed = len(cs) > 1 and any(c[0] == "F" for c in cs)
-                if not cs:
-                    H.add("change %s -" % uri, {"kind": "unchanged", "text": doc, "why": "empty-list"}, start)
-                elif mixed:
-                    H.add("change %s %s" % (uri, enc_changes(cs)), {"kind": "shape", "text": doc, "client_text": nd, "why": "mixed-list"}, start)
-                elif nd is None:
-                    H.add("change %s %s" % (uri, enc_changes(cs)), {"kind": "reject", "text": doc, "why": why, "changes": cs, "lone_cr": has_lone_cr(doc)}, start)
-                else:
-                    doc = nd
-                    H.add("change %s %s" % (uri, enc_changes(cs)), {"kind": "sync", "text": doc, "changes": cs, "lone_cr": has_lone_cr(doc)}, start)
-                if mixed or nd is None:
-                    H.add("open %s %s" % (uri, hx(doc)), {"kind": "sync", "text": doc, "lone_cr": has_lone_cr(doc)}, start)
+            add_scripted(H, h.get("uri", WA), h["doc"], h["notifs"])
+
+
+def special_histories(H, thorough=False):
+    """DETERMINISTIC (no rng, both tiers): every special code point at the start / inside / at the end of a document,
+    delivered by didOpen, by a full-sync change and as the inserted text of incremental changes, each followed by
+    edits on line 0 whose columns depend on the special code point being there. A server that normalises text on the
+    way in (drops a BOM, a NUL, a zero-width character, splits lines at U+2028/U+0085, replaces U+FFFD ...) differs
+    from the client right after the step that delivered the text, or at the next edit."""
+    def edits_on_line0(t):
+        """valid incremental notifications computed from the client's view of `t` (all on line 0 / at EOF)."""
+        out = []
+        first = next((c for c in t if c not in "\r\n"), None)
+        l0 = lsp_lines(t)[0]
+        w0 = sum(u16(c) for c in t[l0[0]:l0[1]])               # UTF-16 length of line 0
+        out.append([("R", 0, 0, 0, 0, "x")])                   # insert at the very start
+        out.append([("R", 0, w0 + 1, 0, w0 + 1, "y")])         # insert at the end of line 0 (after the "x")
+        if t and t[0] not in "\r\n":
+            out.append([("R", 0, 1, 0, 1 + u16(t[0]), "")])     # delete the original first character
+            out.append([("R", 0, 1, 0, 1, t[0])])              # and put it back
+        out.append([("R", 0, 0, 0, 1, "")])                    # remove the "x"
+        nl = len(lsp_lines(t))                                 # the "y" is on line 0, line count unchanged
+        out.append([("R", nl, 0, nl, 0, "z")])                 # EOF-line alias
+        return out
+
+    bases = ["", "ab", "ab\ncd", "a\r\nb"] + (["\n", "\U0001F600q\r\n"] if thorough else [])
+    for sp in SPECIAL:
+        for base in bases:
+            texts = [sp + base, base + sp, sp + sp + base, base[:1] + sp + base[1:], sp + "\n" + base, base + "\n" + sp]
+            seen = set()
+            for t in texts:
+                if t in seen or has_lone_cr(t):
+                    continue
+                seen.add(t)
+                # (1) delivered by didOpen, judged right after the open, then edits
+                add_scripted(H, WA, t, edits_on_line0(t))
+                # (2) delivered by a full-sync change over another document, then edits; then re-opened
+                add_scripted(H, WA, "old\ntext", [[("F", t)]] + edits_on_line0(t)[:3] + [[("O", t)], [("R", 0, 0, 0, 0, "")]])
+                # (3) delivered as the inserted text of incremental changes: at the start, at the end, replacing everything
+                nb = len(lsp_lines(base))
+                add_scripted(H, WA, base, [[("R", 0, 0, 0, 0, t)], [("R", 0, 0, 0, 0, sp)], [("R", 0, 0, 0, 0, "")],
+                                           [("R", 0, 0, 0, u16(sp[0]), "")], [("F", base)], [("R", nb, 0, nb, 0, t)],
+                                           [("F", base)], [("R", 0, 0, nb, 0, t)], [("R", 0, 0, 0, 0, "k")]])
 
 
 def gen_raw_ops(rng, n):
@@ -447,6 +506,8 @@ def run(ctx):
     H = Hist()
     corpus_histories(H)
     n_corpus = len(H.ops)
+    special_histories(H, thorough=not quick)
+    n_special = len(H.ops) - n_corpus
     for _ in range(250 if quick else 6000):
         gen_history(rng, H, ctx.tier)
     for _ in range(25 if quick else 400):               # documents the server ignores / other URIs
@@ -501,7 +562,8 @@ def run(ctx):
             continue
         f = op.split()
         uri = f[1]
-        is_wa = uri.endswith(".wa")
+        # does the URI pass DidChange's suffix filter as regenerated from the source ("none" = no filter)?
+        is_wa = uri_filter == "none" or any(uri.endswith(suf) for suf in re.findall(r'"([^"]*)"', uri_filter))
         in_lone = i >= n_guarded or e.get("lone_cr")
         parts = r.split()
         if r.startswith(("PANIC", "dispatch-error", "bad-op", "<missing>")) or len(parts) < 2:
@@ -641,6 +703,7 @@ def run(ctx):
         "histories": sum(1 for o in H.ops if o == "reset"),
         "regenerated": {"Gen/C21Filter.lean didChangeSuffixes": uri_filter},
         "corpus_ops": n_corpus,
+        "deterministic_special_codepoint_ops": n_special,
     }
     return ctx.finish("proof", cov,
                       assumptions=["documents a range is resolved in contain no lone \\r (LSP: line end; server and gopls: ordinary character) — complement measured in distribution.lone_cr_divergences",
